@@ -180,6 +180,15 @@ func StringToNumber(s string) (n int64, f float64, tp NumberType) {
 	// If s is an hex number, it is parsed as a uint of 64 bits
 	if isHex {
 		us := s[2+i0:]
+		// All characters must be hex digits: this has to be checked before
+		// the leading ones are dropped (the value wraps around modulo 2^64).
+		for i := 0; i < len(us); i++ {
+			c := us[i]
+			if !('0' <= c && c <= '9' || 'a' <= c && c <= 'f' || 'A' <= c && c <= 'F') {
+				tp = NaN
+				return
+			}
+		}
 		if len(us) > 16 {
 			us = us[len(us)-16:]
 		}
